@@ -6,6 +6,7 @@ passes without), and run checks against it.
   seeded.py run <name> <PID> [tier]          apply to /repo, run ./check PID, undo; record the outcome in meta.json
 """
 import json
+import os
 import re
 import shutil
 import subprocess
@@ -67,15 +68,27 @@ def confirm(wt, name):
     return confirmed
 
 
-def run(name, pid, tier="quick"):
+def run(name, pid, tier="quick", worktree=False):
+    """apply the change to /repo (or, with worktree=True, to a scratch worktree that the check is pointed at
+    through VERIF_REPO - used while a background run is reading /repo), run the check, undo"""
     d = SEEDED / name
-    assert sh("git status --short", "/repo").stdout.strip() == "", "/repo not clean"
-    r = sh(f"git apply {d / 'patch.diff'}", "/repo")
-    assert r.returncode == 0, r.stderr
-    try:
-        c = sh(f"./check {pid} --tier {tier}", "/verif", 7200)
-    finally:
-        sh("git checkout -- .", "/repo")
+    if worktree:
+        wt = f"/tmp/wt_seed_{os.getpid()}"
+        assert sh(f"git worktree add -q --detach {wt} HEAD", "/repo").returncode == 0
+        try:
+            r = sh(f"git apply {d / 'patch.diff'}", wt)
+            assert r.returncode == 0, r.stderr
+            c = sh(f"VERIF_REPO={wt} ./check {pid} --tier {tier}", "/verif", 7200)
+        finally:
+            sh(f"git worktree remove --force {wt}", "/repo")
+    else:
+        assert sh("git status --short", "/repo").stdout.strip() == "", "/repo not clean"
+        r = sh(f"git apply {d / 'patch.diff'}", "/repo")
+        assert r.returncode == 0, r.stderr
+        try:
+            c = sh(f"./check {pid} --tier {tier}", "/verif", 7200)
+        finally:
+            sh("git checkout -- .", "/repo")
     viol = re.findall(r"VIOLATION property=\S+ replay=\S+\s+\[([^\]]*)\]", c.stdout)
     meta = json.loads((d / "meta.json").read_text())
     meta.setdefault("checks", {})[f"{pid}:{tier}"] = {"rc": c.returncode, "violations": sorted(set(viol))[:6],
@@ -91,4 +104,6 @@ if __name__ == "__main__":
     if sys.argv[1] == "confirm":
         confirm(sys.argv[2], sys.argv[3])
     else:
-        run(sys.argv[2], sys.argv[3], sys.argv[4] if len(sys.argv) > 4 else "quick")
+        wt = "--worktree" in sys.argv
+        args = [a for a in sys.argv if a != "--worktree"]
+        run(args[2], args[3], args[4] if len(args) > 4 else "quick", worktree=wt)
